@@ -17,6 +17,7 @@ which uses a structured syntax for representing conditional statements and belie
 
 import logging
 import os
+import re
 
 from antlr4 import CommonTokenStream, InputStream, Token
 from antlr4.error.ErrorListener import ErrorListener
@@ -147,6 +148,14 @@ def parse_queries(string: str) -> Queries:
     return queries
 
 
+def _contains_keyword(text: str, word: str) -> bool:
+    """True if `word` occurs in `text` as a token of its own, not as part of an identifier."""
+    return (
+        re.search(r"(?<![A-Za-z0-9_\-])" + word + r"(?![A-Za-z0-9_\-])", text)
+        is not None
+    )
+
+
 def parse_queries_from_str(string: str) -> Queries:
     """
     Parse queries from a string, handling both full belief bases and simple queries.
@@ -202,7 +211,9 @@ def parse_queries_from_str(string: str) -> Queries:
     parseCKB : Function for parsing full belief bases
     Queries : The resulting queries container
     """
-    if "signature" and "conditionals" in string:
+    if _contains_keyword(string, "signature") and _contains_keyword(
+        string, "conditionals"
+    ):
         belief_base = parseCKB(string)
         queries = Queries(belief_base)
     else:
